@@ -689,6 +689,11 @@ r_expand(const Expansion &expansion, const vector_string &args,
           subst = stringify(subst);
         }
       }
+      else if (node._stringify) {
+        // No argument was passed for this parameter (which can only be the
+        // variadic one); it stringifies to an empty string literal.
+        subst = stringify(subst);
+      }
       else if (i == _variadic_param && node._paste) {
         // Special case GCC behavior: if __VA_ARGS__ is pasted to a comma and
         // no arguments are passed, the comma is removed.  MSVC does this
